@@ -20,6 +20,26 @@ import (
 type ctor func() (mangos.Socket, error)
 
 func init() {
+	// C09: what a device does with a reply it could not pass on - send it again - works: a raw reply
+	// handed back by a Send that timed out still has its routing header, the second attempt reaches
+	// the asker (and nobody else)
+	vexplore.Register("C09", func(tier string) []*vexplore.Scenario {
+		var out []*vexplore.Scenario
+		for _, k := range []struct {
+			n string
+			c ctor
+		}{{"xrep", xrep.NewSocket}, {"xrespondent", xrespondent.NewSocket}} {
+			k := k
+			out = append(out, &vexplore.Scenario{Name: k.n + "-reply-retried-after-timeout", Mode: "enum", Reset: kit.ResetGlobals,
+				Body: func() { rawRetry(k.n, k.c) }, NeedCounters: []string{"raw-timeout-then-retry-routed"}})
+			out = append(out, &vexplore.Scenario{Name: k.n + "-long-routing-headers", Mode: "enum", Reset: kit.ResetGlobals,
+				Body: func() { longRouting(k.n, k.c) }, NeedCounters: []string{"reply-with-nine-or-more-routing-words-exact"}})
+		}
+		return out
+	})
+}
+
+func init() {
 	vexplore.Register("C05", func(tier string) []*vexplore.Scenario {
 		d, dr, b := 5, 5, 2
 		if tier == "thorough" {
